@@ -133,7 +133,35 @@ pub enum BlockSpec {
     VectorSinkU8 { max: u32 },
     /// harness-defined derive blocks (C19); kind: see `derived.rs`
     Derived { kind: u8, k: u32 },
+    // file-backed sources (C16)
+    FileSourceU8 { len: u32, repeat: u8 },
+    FileSourceF32 { len: u32, repeat: u8 },
+    /// SigMF source of rf32_le data; `archive`: tar archive instead of a recording pair
+    SigMFSourceF32 { len: u32, repeat: u8, archive: bool },
 }
+
+pub fn repeat_of(r: u8) -> rustradio::Repeat {
+    if r == 255 { rustradio::Repeat::infinite() } else { rustradio::Repeat::finite(r as u64) }
+}
+
+/// Finite sources for C16.
+pub fn finite_source_strategy() -> BoxedStrategy<BlockSpec> {
+    use BlockSpec::*;
+    let len = || prop_oneof![1 => 0u32..4, 2 => 0u32..3000, 2 => 0u32..14000];
+    let rep = || prop_oneof![1 => Just(0u8), 2 => Just(1u8), 2 => Just(2u8), 1 => Just(3u8), 1 => Just(255u8)];
+    prop_oneof![
+        (len(), rep()).prop_map(|(len, repeat)| VectorSourceU8 { len, repeat }),
+        (len(), rep()).prop_map(|(len, repeat)| FileSourceU8 { len, repeat }),
+        (len(), rep()).prop_map(|(len, repeat)| FileSourceF32 { len: len / 2, repeat }),
+        (len(), rep(), any::<bool>()).prop_map(|(len, repeat, archive)| SigMFSourceF32 { len: len / 2, repeat, archive }),
+    ]
+    .boxed()
+}
+
+pub fn f32_source_data(len: u32) -> Vec<f32> {
+    (0..len).map(|i| i as f32 * 0.5 - 100.0).collect()
+}
+pub const SIGMF_META_F32: &str = r#"{"global":{"core:datatype":"rf32_le","core:version":"1.1.0","core:sample_rate":48000.0},"captures":[{"core:sample_start":0}],"annotations":[]}"#;
 
 pub const DERIVED_KINDS: u8 = 10;
 pub fn derived_shape(kind: u8) -> (usize, usize) {
@@ -303,6 +331,8 @@ impl BlockSpec {
             SignalSourceC32 => "SignalSourceComplex",
             NullSinkU8 => "NullSink",
             VectorSinkU8 { .. } => "VectorSink",
+            FileSourceU8 { .. } | FileSourceF32 { .. } => "FileSource",
+            SigMFSourceF32 { .. } => "SigMFSource",
             Derived { kind, .. } => ["S11", "S12", "S13", "S21", "S22", "S23", "T11", "T21", "SDefInto", "N12"][(*kind % DERIVED_KINDS) as usize],
         }
     }
@@ -310,7 +340,11 @@ impl BlockSpec {
     /// Sources that never end: the driver stops after a fixed number of calls.
     pub fn is_infinite_source(&self) -> bool {
         use BlockSpec::*;
-        matches!(self, ConstantSourceF32 { .. } | SignalSourceF32 | SignalSourceC32 | VectorSourceU8 { repeat: 255, .. })
+        matches!(
+            self,
+            ConstantSourceF32 { .. } | SignalSourceF32 | SignalSourceC32 | VectorSourceU8 { repeat: 255, .. }
+                | FileSourceU8 { repeat: 255, .. } | FileSourceF32 { repeat: 255, .. } | SigMFSourceF32 { repeat: 255, .. }
+        )
     }
 
     /// Number of contiguous samples (per port, max) the block needs in one window.
@@ -414,6 +448,7 @@ impl BlockSpec {
             ToTextU8 { n } => (0..*n as usize).map(|i| D::U8(gen_u8(&Gen { len: g[i].len.min(600), ..g[i] }, BDom::Bytes))).collect(),
             ToTextF32 { n } => (0..*n as usize).map(|i| D::F32(gen_f32(&Gen { len: g[i].len.min(300), ..g[i] }, FDom::Any))).collect(),
             VectorSourceU8 { .. } | ConstantSourceF32 { .. } | SignalSourceF32 | SignalSourceC32 => vec![],
+            FileSourceU8 { .. } | FileSourceF32 { .. } | SigMFSourceF32 { .. } => vec![],
             NullSinkU8 | VectorSinkU8 { .. } => vec![D::U8(gen_u8(&g[0], BDom::Bytes))],
             Derived { kind, .. } => (0..derived_shape(*kind).0).map(|i| D::U32(gen_u32_small(&g[i]))).collect(),
         }
@@ -480,7 +515,7 @@ impl BlockSpec {
                 let (p, $r) = sin!($variant);
                 let (b, o) = $ctor;
                 Built {
-                    sink_probe: None,
+                    scratch: None, sink_probe: None,
                     name: self.name().to_string(),
                     block: Box::new(b),
                     ins: vec![p],
@@ -494,7 +529,7 @@ impl BlockSpec {
                 let (pb, $b) = sin!($vb);
                 let (blk, o) = $ctor;
                 Built {
-                    sink_probe: None,
+                    scratch: None, sink_probe: None,
                     name: self.name().to_string(),
                     block: Box::new(blk),
                     ins: vec![pa, pb],
@@ -527,12 +562,12 @@ impl BlockSpec {
             TeeU8 => {
                 let (p, r) = sin!(U8);
                 let (b, o1, o2) = Tee::new(r);
-                Built { sink_probe: None, name: "Tee".into(), block: Box::new(b), ins: vec![p], outs: vec![Box::new(SOut::new(o1)), Box::new(SOut::new(o2))] }
+                Built { scratch: None, sink_probe: None, name: "Tee".into(), block: Box::new(b), ins: vec![p], outs: vec![Box::new(SOut::new(o1)), Box::new(SOut::new(o2))] }
             }
             TeeF32 => {
                 let (p, r) = sin!(F32);
                 let (b, o1, o2) = Tee::new(r);
-                Built { sink_probe: None, name: "Tee".into(), block: Box::new(b), ins: vec![p], outs: vec![Box::new(SOut::new(o1)), Box::new(SOut::new(o2))] }
+                Built { scratch: None, sink_probe: None, name: "Tee".into(), block: Box::new(b), ins: vec![p], outs: vec![Box::new(SOut::new(o1)), Box::new(SOut::new(o2))] }
             }
             SkipU8 { skip } => one!(U8, |r| Skip::new(r, skip as usize)),
             SkipF32 { skip } => one!(F32, |r| Skip::new(r, skip as usize)),
@@ -561,22 +596,22 @@ impl BlockSpec {
                 let (mut b, o) = HdlcDeframer::new(r, min as usize, max as usize);
                 b.set_checksum(checksum);
                 b.set_fix_bits(fix);
-                Built { sink_probe: None, name: "HdlcDeframer".into(), block: Box::new(b), ins: vec![p], outs: vec![Box::new(POut::new(o))] }
+                Built { scratch: None, sink_probe: None, name: "HdlcDeframer".into(), block: Box::new(b), ins: vec![p], outs: vec![Box::new(POut::new(o))] }
             }
             Il2p => {
                 let (p, r) = sin!(U8);
                 let (b, o) = Il2pDeframer::new(r);
-                Built { sink_probe: None, name: "Il2pDeframer".into(), block: Box::new(b), ins: vec![p], outs: vec![Box::new(POut::new(o))] }
+                Built { scratch: None, sink_probe: None, name: "Il2pDeframer".into(), block: Box::new(b), ins: vec![p], outs: vec![Box::new(POut::new(o))] }
             }
             StreamToPduU8 { max, tail } => {
                 let (p, r) = sin!(U8);
                 let (b, o) = StreamToPdu::new(r, "burst", max as usize, tail as usize);
-                Built { sink_probe: None, name: "StreamToPdu".into(), block: Box::new(b), ins: vec![p], outs: vec![Box::new(POut::new(o))] }
+                Built { scratch: None, sink_probe: None, name: "StreamToPdu".into(), block: Box::new(b), ins: vec![p], outs: vec![Box::new(POut::new(o))] }
             }
             StreamToPduF32 { max, tail } => {
                 let (p, r) = sin!(F32);
                 let (b, o) = StreamToPdu::new(r, "burst", max as usize, tail as usize);
-                Built { sink_probe: None, name: "StreamToPdu".into(), block: Box::new(b), ins: vec![p], outs: vec![Box::new(POut::new(o))] }
+                Built { scratch: None, sink_probe: None, name: "StreamToPdu".into(), block: Box::new(b), ins: vec![p], outs: vec![Box::new(POut::new(o))] }
             }
             VecToStreamU8 => {
                 let d = match it.next() {
@@ -586,7 +621,7 @@ impl BlockSpec {
                 let (p, r) = PIn::new(d);
                 sss(out_size);
                 let (b, o) = VecToStream::new(r);
-                Built { sink_probe: None, name: "VecToStream".into(), block: Box::new(b), ins: vec![Box::new(p)], outs: vec![Box::new(SOut::new(o))] }
+                Built { scratch: None, sink_probe: None, name: "VecToStream".into(), block: Box::new(b), ins: vec![Box::new(p)], outs: vec![Box::new(SOut::new(o))] }
             }
             ToTextU8 { n } => {
                 let mut ins = Vec::new();
@@ -597,7 +632,7 @@ impl BlockSpec {
                     rs.push(r);
                 }
                 let (b, o) = ToText::new(rs);
-                Built { sink_probe: None, name: "ToText".into(), block: Box::new(b), ins, outs: vec![Box::new(SOut::new(o))] }
+                Built { scratch: None, sink_probe: None, name: "ToText".into(), block: Box::new(b), ins, outs: vec![Box::new(SOut::new(o))] }
             }
             ToTextF32 { n } => {
                 let mut ins = Vec::new();
@@ -608,7 +643,7 @@ impl BlockSpec {
                     rs.push(r);
                 }
                 let (b, o) = ToText::new(rs);
-                Built { sink_probe: None, name: "ToText".into(), block: Box::new(b), ins, outs: vec![Box::new(SOut::new(o))] }
+                Built { scratch: None, sink_probe: None, name: "ToText".into(), block: Box::new(b), ins, outs: vec![Box::new(SOut::new(o))] }
             }
             FftStream { size } => one!(C32, |r| rustradio::blocks::FftStream::new(r, 1usize << size)),
             VectorSourceU8 { len, repeat } => {
@@ -616,27 +651,27 @@ impl BlockSpec {
                 let data = vector_source_data(len);
                 let rep = if repeat == 255 { rustradio::Repeat::infinite() } else { rustradio::Repeat::finite(repeat as u64) };
                 let (b, o) = VectorSourceBuilder::new(data).repeat(rep).build();
-                Built { sink_probe: None, name: "VectorSource".into(), block: Box::new(b), ins: vec![], outs: vec![Box::new(SOut::new(o))] }
+                Built { scratch: None, sink_probe: None, name: "VectorSource".into(), block: Box::new(b), ins: vec![], outs: vec![Box::new(SOut::new(o))] }
             }
             ConstantSourceF32 { val } => {
                 sss(out_size);
                 let (b, o) = ConstantSource::new(val);
-                Built { sink_probe: None, name: "ConstantSource".into(), block: Box::new(b), ins: vec![], outs: vec![Box::new(SOut::new(o))] }
+                Built { scratch: None, sink_probe: None, name: "ConstantSource".into(), block: Box::new(b), ins: vec![], outs: vec![Box::new(SOut::new(o))] }
             }
             SignalSourceF32 => {
                 sss(out_size);
                 let (b, o) = SignalSourceFloat::new(48000.0, 1200.0, 0.5);
-                Built { sink_probe: None, name: "SignalSourceFloat".into(), block: Box::new(b), ins: vec![], outs: vec![Box::new(SOut::new(o))] }
+                Built { scratch: None, sink_probe: None, name: "SignalSourceFloat".into(), block: Box::new(b), ins: vec![], outs: vec![Box::new(SOut::new(o))] }
             }
             SignalSourceC32 => {
                 sss(out_size);
                 let (b, o) = SignalSourceComplex::new(48000.0, 1200.0, 0.5);
-                Built { sink_probe: None, name: "SignalSourceComplex".into(), block: Box::new(b), ins: vec![], outs: vec![Box::new(SOut::new(o))] }
+                Built { scratch: None, sink_probe: None, name: "SignalSourceComplex".into(), block: Box::new(b), ins: vec![], outs: vec![Box::new(SOut::new(o))] }
             }
             NullSinkU8 => {
                 let (p, r) = sin!(U8);
                 let b = NullSink::new(r);
-                Built { sink_probe: None, name: "NullSink".into(), block: Box::new(b), ins: vec![p], outs: vec![] }
+                Built { scratch: None, sink_probe: None, name: "NullSink".into(), block: Box::new(b), ins: vec![p], outs: vec![] }
             }
             Derived { kind, k } => {
                 use crate::derived::*;
@@ -647,27 +682,74 @@ impl BlockSpec {
                 match kind % DERIVED_KINDS {
                     0 => one!(U32, |r| S11::new(r, k)),
                     1 => { let (p, r) = sin!(U32); let (b, x, y) = S12::new(r, k);
-                           Built { sink_probe: None, name: nm, block: Box::new(b), ins: vec![p], outs: outs!(x, y) } }
+                           Built { scratch: None, sink_probe: None, name: nm, block: Box::new(b), ins: vec![p], outs: outs!(x, y) } }
                     2 => { let (p, r) = sin!(U32); let (b, x, y, z) = S13::new(r, k);
-                           Built { sink_probe: None, name: nm, block: Box::new(b), ins: vec![p], outs: outs!(x, y, z) } }
+                           Built { scratch: None, sink_probe: None, name: nm, block: Box::new(b), ins: vec![p], outs: outs!(x, y, z) } }
                     3 => two!(U32, U32, |a, b| S21::new(a, b, k)),
                     4 => { let (pa, a) = sin!(U32); let (pb, b) = sin!(U32); let (blk, x, y) = S22::new(a, b, k);
-                           Built { sink_probe: None, name: nm, block: Box::new(blk), ins: vec![pa, pb], outs: outs!(x, y) } }
+                           Built { scratch: None, sink_probe: None, name: nm, block: Box::new(blk), ins: vec![pa, pb], outs: outs!(x, y) } }
                     5 => { let (pa, a) = sin!(U32); let (pb, b) = sin!(U32); let (blk, x, y, z) = S23::new(a, b, k);
-                           Built { sink_probe: None, name: nm, block: Box::new(blk), ins: vec![pa, pb], outs: outs!(x, y, z) } }
+                           Built { scratch: None, sink_probe: None, name: nm, block: Box::new(blk), ins: vec![pa, pb], outs: outs!(x, y, z) } }
                     6 => one!(U32, |r| T11::new(r, k)),
                     7 => two!(U32, U32, |a, b| T21::new(a, b, k)),
                     8 => one!(U32, |r| SDefInto::new(r, k)),
                     _ => { let (p, r) = sin!(U32); let (b, x, pk) = N12::new(r, k);
-                           Built { sink_probe: None, name: nm, block: Box::new(b), ins: vec![p], outs: vec![Box::new(SOut::new(x)), Box::new(POut::new(pk))] } }
+                           Built { scratch: None, sink_probe: None, name: nm, block: Box::new(b), ins: vec![p], outs: vec![Box::new(SOut::new(x)), Box::new(POut::new(pk))] } }
                 }
+            }
+            FileSourceU8 { len, repeat } => {
+                let sc = Scratch::new();
+                let path = sc.path("data.u8");
+                std::fs::write(&path, vector_source_data(len)).expect("write scratch");
+                sss(out_size);
+                let (mut b, o) = FileSource::<u8>::new(&path).expect("FileSource::new");
+                b.repeat(repeat_of(repeat));
+                Built { scratch: Some(sc), sink_probe: None, name: "FileSource".into(), block: Box::new(b), ins: vec![], outs: vec![Box::new(SOut::new(o))] }
+            }
+            FileSourceF32 { len, repeat } => {
+                let sc = Scratch::new();
+                let path = sc.path("data.f32");
+                let bytes: Vec<u8> = f32_source_data(len).iter().flat_map(|x| x.to_le_bytes()).collect();
+                std::fs::write(&path, bytes).expect("write scratch");
+                sss(out_size);
+                let (mut b, o) = FileSource::<f32>::new(&path).expect("FileSource::new");
+                b.repeat(repeat_of(repeat));
+                Built { scratch: Some(sc), sink_probe: None, name: "FileSource".into(), block: Box::new(b), ins: vec![], outs: vec![Box::new(SOut::new(o))] }
+            }
+            SigMFSourceF32 { len, repeat, archive } => {
+                let sc = Scratch::new();
+                let bytes: Vec<u8> = f32_source_data(len).iter().flat_map(|x| x.to_le_bytes()).collect();
+                let path = if archive {
+                    let path = sc.path("rec.sigmf");
+                    let f = std::fs::File::create(&path).expect("create archive");
+                    let mut tb = tar::Builder::new(f);
+                    let mut add = |name: &str, data: &[u8]| {
+                        let mut h = tar::Header::new_gnu();
+                        h.set_size(data.len() as u64);
+                        h.set_mode(0o644);
+                        h.set_cksum();
+                        tb.append_data(&mut h, name, data).expect("tar append");
+                    };
+                    add("rec/rec.sigmf-meta", SIGMF_META_F32.as_bytes());
+                    add("rec/rec.sigmf-data", &bytes);
+                    tb.finish().expect("tar finish");
+                    path
+                } else {
+                    let base = sc.path("rec.sigmf");
+                    std::fs::write(sc.path("rec.sigmf-meta"), SIGMF_META_F32).expect("meta");
+                    std::fs::write(sc.path("rec.sigmf-data"), &bytes).expect("data");
+                    base
+                };
+                sss(out_size);
+                let (b, o) = SigMFSourceBuilder::<f32>::new(path).repeat(repeat_of(repeat)).build().expect("SigMFSource build");
+                Built { scratch: Some(sc), sink_probe: None, name: "SigMFSource".into(), block: Box::new(b), ins: vec![], outs: vec![Box::new(SOut::new(o))] }
             }
             VectorSinkU8 { max } => {
                 let (p, r) = sin!(U8);
                 let b = VectorSink::new(r, max as usize);
                 let hook = b.hook();
                 let probe: Box<dyn Fn() -> Vec<u64>> = Box::new(move || hook.data().samples().iter().map(|x| *x as u64).collect());
-                Built { sink_probe: Some(probe), name: "VectorSink".into(), block: Box::new(b), ins: vec![p], outs: vec![] }
+                Built { scratch: None, sink_probe: Some(probe), name: "VectorSink".into(), block: Box::new(b), ins: vec![p], outs: vec![] }
             }
         };
         sss(None);
@@ -688,7 +770,7 @@ pub fn widest_elem(spec: &BlockSpec) -> usize {
         | FftFilter { .. } | FftStream { .. } | FloatToComplex | Hilbert { .. } | RtlSdrDecode | FftFilterFloat { .. } => 8,
         XorConstU8 { .. } | XorU8 | Nrzi | Descrambler { .. } | Cac { .. } | CacTag { .. } | TeeU8 | SkipU8 { .. } | DelayU8 { .. }
         | ResampU8 { .. } | Hdlc { .. } | Il2p | StreamToPduU8 { .. } | VecToStreamU8 | ToTextU8 { .. }
-        | VectorSourceU8 { .. } | NullSinkU8 | VectorSinkU8 { .. } => 1,
+        | VectorSourceU8 { .. } | NullSinkU8 | VectorSinkU8 { .. } | FileSourceU8 { .. } => 1,
         SignalSourceC32 => 8,
         _ => 4,
     }
